@@ -50,6 +50,122 @@ theorem C15_gen_unitcell_angle_dots :
     BiotiteModel.Gen.C15.unitcellAngleDots = [(1, 2), (0, 2), (0, 1)] := by
   decide
 
+/-! ### formulas and structure of the source, re-read on every run (pass 7) -/
+
+/-- `_displacement_triclinic_box`: the candidate shift written in the source, `i·box[0,c] + j·box[1,c] + k·box[2,c]`
+per component, IS `(i, j, k)·B` of the model (`shifts`); the candidate is chosen by `argmin` of
+`vector_dot(shifted, shifted)` over `fraction_to_coord(fractions) + shift`. -/
+theorem C15_gen_triclinic_shift (i j k : Rat) (b : Box) :
+    BiotiteModel.Gen.C15.triShift i j k b = vecMul ⟨i, j, k⟩ b ∧
+    BiotiteModel.Gen.C15.triSelect = ["argmin"] ∧ BiotiteModel.Gen.C15.triDiffsFrom = "fraction_to_coord" ∧
+    BiotiteModel.Gen.C15.triKey = "vector_dot(shifted_diffs, shifted_diffs)" := by
+  refine ⟨?_, by decide, by decide, by decide⟩
+  apply V3.ext' <;> simp only [BiotiteModel.Gen.C15.triShift, vecMul]
+
+/-- `vectors_from_unitcell`: the array literal of the source (locals inlined) is the model's `vectorsFromCell`, and the
+radicand of `c_z` is the one `C15_unitcell_inverse_partial` assumes. -/
+theorem C15_gen_unitcell_formula (la lb lc ca cb cg sg cz : Rat) :
+    BiotiteModel.Gen.C15.cellBox la lb lc ca cb cg sg cz = vectorsFromCell la lb lc ca cb cg sg cz ∧
+    BiotiteModel.Gen.C15.cellCzSq la lb lc ca cb cg sg =
+      lc * lc - (lc * cb) * (lc * cb) - (lc * (ca - cb * cg) / sg) * (lc * (ca - cb * cg) / sg) ∧
+    BiotiteModel.Gen.C15.cellDtype = "np.float32" := by
+  refine ⟨?_, ?_, by decide⟩
+  · simp only [BiotiteModel.Gen.C15.cellBox, vectorsFromCell, M3.mk.injEq, V3.mk.injEq]
+    refine ⟨⟨by ring, by ring, by ring⟩, ⟨by ring, by ring, by ring⟩, ⟨by ring, by ring, by ring⟩⟩
+  · simp only [BiotiteModel.Gen.C15.cellCzSq]
+
+/-- `dihedral`: `arctan2(first, second)` with `first = ((v1×v2)×(v2×v3))·v2 = dihYv` and `second = (v1×v2)·(v2×v3) = dihXv`
+(locals `n1`, `n2`, `x`, `y` inlined), after `norm_vector` of the three bond vectors. -/
+theorem C15_gen_dihedral_formula (v1 v2 v3 : Vec) :
+    BiotiteModel.Gen.C15.dihArg1 v1 v2 v3 = dihYv v1 v2 v3 ∧ BiotiteModel.Gen.C15.dihArg2 v1 v2 v3 = dihXv v1 v2 v3 ∧
+    BiotiteModel.Gen.C15.dihNormed = ["v1", "v2", "v3"] := by
+  refine ⟨?_, ?_, by decide⟩ <;>
+    simp only [BiotiteModel.Gen.C15.dihArg1, BiotiteModel.Gen.C15.dihArg2, dihYv, dihXv, V3.dot, V3.cross] <;> ring
+
+/-- `angle = arccos(clip(vector_dot(v1, v2), -1, 1))` of the two normalised vectors; `distance = sqrt(vector_dot(diff, diff))`. -/
+theorem C15_gen_measure_forms :
+    BiotiteModel.Gen.C15.angleDot = ["v1", "v2"] ∧ BiotiteModel.Gen.C15.angleNormed = ["v1", "v2"] ∧
+    BiotiteModel.Gen.C15.angleClip = ["-1", "1"] ∧ BiotiteModel.Gen.C15.distanceDot = ["diff", "diff"] := by
+  decide
+
+/-- `displacement`: both shape branches compute `v2 − v1`; every orthogonality test dispatches to
+`_displacement_orthogonal_box` / `_displacement_triclinic_box`; the steps come in the order
+`coord_to_fraction`, `% 1`, `is_orthogonal`; `coord_to_fraction = matmul(coord, inv(box))`,
+`fraction_to_coord = matmul(fraction, box)`, `move_inside_box = fraction_to_coord ∘ (% 1) ∘ coord_to_fraction`;
+`is_orthogonal` combines three strict `<` tests with `&`; `box_volume = abs(det)`. -/
+theorem C15_gen_displacement_structure (v1 v2 : Vec) :
+    BiotiteModel.Gen.C15.dispDiffThen v1 v2 = v2.sub v1 ∧ BiotiteModel.Gen.C15.dispDiffElse v1 v2 = v2.sub v1 ∧
+    BiotiteModel.Gen.C15.dispDispatch = List.replicate 3 ("_displacement_orthogonal_box", "_displacement_triclinic_box") ∧
+    BiotiteModel.Gen.C15.dispSteps = ["coord_to_fraction", "mod", "is_orthogonal"] ∧
+    BiotiteModel.Gen.C15.orthoSteps = ["fraction_to_coord"] ∧
+    BiotiteModel.Gen.C15.coordToFractionForm = ["matmul", "coord", "linalg.inv(box)"] ∧
+    BiotiteModel.Gen.C15.fractionToCoordForm = ["matmul", "fraction", "box"] ∧
+    BiotiteModel.Gen.C15.moveSteps = ["coord_to_fraction", "fraction_to_coord"] ∧
+    BiotiteModel.Gen.C15.orthoCmp = ["Lt"] ∧ BiotiteModel.Gen.C15.orthoCombine = ["BitAnd"] ∧
+    BiotiteModel.Gen.C15.volumeForm = ["abs", "det"] := by
+  refine ⟨?_, ?_, by decide, by decide, by decide, by decide, by decide, by decide, by decide, by decide, by decide⟩
+  · apply V3.ext' <;> simp only [BiotiteModel.Gen.C15.dispDiffThen, V3.sub]
+  · apply V3.ext' <;> simp only [BiotiteModel.Gen.C15.dispDiffElse, V3.sub, V3.neg] <;> ring
+
+/-- `repeat_box_coord`: the shift is `sum(box * [i, j, k][:, newaxis], axis=-2)`, added to a copy, the original
+coordinates come first, everything is concatenated along the atom axis, the index array is tiled `(1 + 2·amount)³`
+times (the count `repeatBoxCoordE` tests), and `amount` is checked against `Integral` (`TypeError`). -/
+theorem C15_gen_repeat_structure (a : Int) :
+    BiotiteModel.Gen.C15.repVec = ["i", "j", "k"] ∧ BiotiteModel.Gen.C15.repSumAxis = ["-2"] ∧
+    BiotiteModel.Gen.C15.repCatAxis = ["-2"] ∧ BiotiteModel.Gen.C15.repFirst = ["coord"] ∧
+    BiotiteModel.Gen.C15.repCount a = (1 + 2 * a) ^ 3 ∧ BiotiteModel.Gen.C15.repTypeCheck = ["Integral"] ∧
+    BiotiteModel.Gen.C15.repAdds = ["Add"] := by
+  refine ⟨by decide, by decide, by decide, by decide, ?_, by decide, by decide⟩
+  simp only [BiotiteModel.Gen.C15.repCount]
+
+/-- `remove_pbc_from_coord`: pairs `(i, i+1)` for `i = 0 … n−2`, `index_displacement(..., periodic=True, box=box)`,
+`cumsum` along the atom axis, the first atom through `move_inside_box`, the rest `base + cumulative displacement`.
+`remove_pbc`: per molecule mask (`get_molecule_masks`, chains without bonds) `mask &= selection`, then
+`remove_pbc_from_coord` on the molecule's own coordinates with the structure's box, `centroid`, `move_inside_box`,
+shift by `center_in_box − center` — all inside the loop. -/
+theorem C15_gen_remove_pbc_structure :
+    BiotiteModel.Gen.C15.rpbcPairs = [["0", "coord.shape[-2] - 1"], ["1", "coord.shape[-2]"]] ∧
+    BiotiteModel.Gen.C15.rpbcDisp = ["index_displacement", "box=box", "periodic=True"] ∧
+    BiotiteModel.Gen.C15.rpbcCumsum = ["cumsum", "axis=-2"] ∧
+    BiotiteModel.Gen.C15.rpbcBase = ["move_inside_box", "coord[..., 0:1, :]"] ∧
+    BiotiteModel.Gen.C15.rpbcAssign = [("sanitized_coord[..., 0:1, :]", "base_coord"),
+      ("sanitized_coord[..., 1:, :]", "base_coord + absolute_disp")] ∧
+    BiotiteModel.Gen.C15.rpLoopCalls = ["remove_pbc_from_coord", "centroid", "move_inside_box"] ∧
+    BiotiteModel.Gen.C15.rpOutsideCalls = [] ∧
+    BiotiteModel.Gen.C15.rpShift = ["center_in_box - center"] ∧
+    BiotiteModel.Gen.C15.rpSelection = ["mask &= selection"] ∧
+    BiotiteModel.Gen.C15.rpMasks = ["get_molecule_masks", "get_chain_masks"] ∧
+    BiotiteModel.Gen.C15.rpArgs = ["new_atoms.coord[..., mask, :]", "atoms.box"] := by
+  decide
+
+/-- the four index wrappers: target function and index width; the width test comes first (`ValueError`), the
+coordinates are gathered as `coord(atoms)[..., indices[:, i], :]`. -/
+theorem C15_gen_index_wrappers :
+    BiotiteModel.Gen.C15.indexWrappers = [("index_displacement", "displacement", 2), ("index_distance", "distance", 2),
+      ("index_angle", "angle", 3), ("index_dihedral", "dihedral", 4)] ∧
+    BiotiteModel.Gen.C15.indexFirstCheck = ["indices.shape[-1] != expected_amount", "ValueError"] ∧
+    BiotiteModel.Gen.C15.indexGather = ["coord(atoms)[..., indices[:, i], :]"] := by
+  decide
+
+/-- default argument values the adapter and the model assume (`box=None`, `periodic=False`, `amount=1`, …). -/
+theorem C15_gen_defaults :
+    BiotiteModel.Gen.C15.defaults = [("displacement", "box", "None"), ("distance", "box", "None"), ("angle", "box", "None"),
+      ("dihedral", "box", "None"), ("_call_non_index_function", "box", "None"), ("_call_non_index_function", "periodic", "False"),
+      ("repeat_box", "amount", "1"), ("repeat_box_coord", "amount", "1"), ("remove_pbc", "selection", "None"),
+      ("rotate_about_axis", "support", "None"), ("align_vectors", "origin_position", "None"),
+      ("align_vectors", "target_position", "None"), ("orient_principal_components", "order", "None")] := by
+  decide
+
+/-- exception classes of the `raise` statements, in source order. -/
+theorem C15_gen_raises :
+    BiotiteModel.Gen.C15.raises = [("displacement", ["ValueError", "ValueError"]),
+      ("_call_non_index_function", ["ValueError", "ValueError"]), ("repeat_box", ["BadStructureError"]),
+      ("repeat_box_coord", ["TypeError"]), ("remove_pbc", ["BadStructureError"]), ("translate", ["ValueError"]),
+      ("rotate", ["ValueError"]), ("rotate_about_axis", ["ValueError"]),
+      ("align_vectors", ["ValueError", "ValueError", "ValueError", "ValueError", "ValueError"]),
+      ("orient_principal_components", ["ValueError", "ValueError", "ValueError", "ValueError"])] := by
+  decide
+
 /-! ## Rigid-motion invariance (polynomial identities over any commutative ring) -/
 
 section Rigid
